@@ -81,6 +81,23 @@ class Src:
 
 
 @api.expose
+class SlowSrc:
+    """focus shape 'slow item': a generator whose item k takes `slow` virtual seconds to produce"""
+
+    def gen(self, n, k, slow):
+        sched = _Run.cur["sched"]
+
+        def g():
+            for i in range(n):
+                if i == k:
+                    sched.ev("slow-item", "start")
+                    sched.sleep(slow)
+                    sched.ev("slow-item", "end")
+                yield [9, i]
+        return g()
+
+
+@api.expose
 class Ping:
     """unrelated object the background 'chatter' client keeps calling"""
 
@@ -181,8 +198,8 @@ _CODES = None
 def _codes():
     global _CODES
     if _CODES is None:
-        _CODES = S.code_objects(SV.Daemon._housekeeping, SV.Daemon._clientDisconnect, SV.Daemon._streamResponse,
-                                SV.DaemonObject.get_next_stream_item, SV.DaemonObject.close_stream)
+        _CODES = S.code_closure(SV.Daemon._housekeeping, SV.Daemon._clientDisconnect, SV.Daemon._streamResponse,
+                                 SV.DaemonObject.get_next_stream_item, SV.DaemonObject.close_stream)
     return _CODES
 
 
@@ -219,7 +236,7 @@ class StreamWorld(World):
               "reconnect_within_linger", "reconnect_after_linger", "terminated_error", "client_local_closed",
               "streaming_disabled", "two_proxies", "concurrent_streams", "multiplex", "thread", "housekeeping_observed",
               "temp_proxy_close", "client_local_stop", "preempted", "raced",
-              "connection_dropped", "continued_after_drop", "concurrent_ops", "client_correlation_id", "disconnect_during_table_change", "chatter", "combined", "combined_slave_idle_expiry", "external_loop", "reply_lost", "continued_after_lost_reply", "fetch_during_disconnect", "stalled", "foreign_thread_close", "foreign_thread_finalize", "transient_socket_errors"]
+              "connection_dropped", "continued_after_drop", "concurrent_ops", "client_correlation_id", "disconnect_during_table_change", "chatter", "combined", "combined_slave_idle_expiry", "external_loop", "reply_lost", "continued_after_lost_reply", "fetch_during_disconnect", "stalled", "foreign_thread_close", "foreign_thread_finalize", "transient_socket_errors", "slow_fetch_timed_out"]
     # also counted, but too schedule-dependent to demand: "fetch_before_old_disconnect", "expired_but_still_answers"
     RULE = ("plan = (server type, serializer, ITER_STREAMING on/off, ITER_STREAM_LIFETIME in {0,5,20}, ITER_STREAM_LINGER in "
             "{0,3,10}, 18% of the multiplex plans 'combined': the streams live on a second daemon served by the first one's loop (Daemon.combine), "
@@ -286,6 +303,16 @@ class StreamWorld(World):
     # ------------------------------------------------------------------ plans
     def gen(self, rng, tier):
         big = tier == "thorough"
+        if rng.random() < 0.06:
+            # focus shape "slow item": the client's timeout ends a fetch while the server is still producing the item; the client
+            # reconnects, closes the iterator (the close request reaches a thread server while the generator is executing) and,
+            # after the item is done, somebody asks the server for that stream again: an error, never an item
+            k = rng.randint(0, 2)
+            return {"servertype": rng.choice(["thread", "thread", "multiplex"]), "serializer": rng.choice(SERIALIZERS), "streaming": True,
+                    "lifetime": rng.choice([0, 0, 20]), "linger": rng.choice([0, 3, 10, 30]), "nproxies": 1, "streams": [], "ops": [],
+                    "slowfetch": {"k": k, "n": k + rng.randint(2, 4), "slow": rng.choice([3.0, 6.0]), "timeout": 1.0,
+                                  "wait_more": rng.choice([0.0, 2.0, 12.0]), "settle_before_close": rng.random() < 0.3},
+                    "p_block": rng.choice([0.0, 0.0, 0.3]), "net": {"shuffle_select": rng.random() < 0.5}}
         servertype = rng.choice(["thread", "multiplex"])
         streaming = rng.random() >= 0.07
         lifetime = rng.choice([0, 0, 5, 20])
@@ -575,11 +602,76 @@ class StreamWorld(World):
                 plain(kind, (str(key) + ":" + variant) if key else variant, msg)
             ctx.violate = violate
         try:
-            self._drive(ctx, run, its)
+            if plan.get("slowfetch"):
+                self._slowfetch(ctx, run, its)
+            else:
+                self._drive(ctx, run, its)
         finally:
             _Run.cur = None
             for it in its.values():     # _StreamResultIterator.__del__ calls close(): make that a no-op at teardown
                 it.proxy = None
+
+    def _slowfetch(self, ctx, run, its):
+        """focus shape 'slow item' (own small oracle; see gen)"""
+        import Pyro5.core as core
+        plan, sched, sf = ctx.plan, ctx.sched, ctx.plan["slowfetch"]
+        srv = Server(ctx, plan["servertype"], daemon_cls=ObsDaemon, polltimeout=POLL)
+        daemon = srv.daemon
+        uri = srv.register(SlowSrc(), "slow")
+        px = CL.Proxy(uri)
+        px._pyroTimeout = sf["timeout"]
+        it = its[0] = px.gen(sf["n"], sf["k"], sf["slow"])
+        sid = it.streamId
+        for i in range(sf["k"]):
+            v = next(it)
+            if list(v) != [9, i]:
+                ctx.violate("wrong-item", "slow-item", "item %d of the stream arrived as %r" % (i, v))
+                return
+            ctx.probe("item")
+        try:
+            v = next(it)
+            ctx.disturbed = "the fetch of the slow item returned %r before the client's timeout" % (v,)
+            return
+        except E.CommunicationError:
+            ctx.probe("slow_fetch_timed_out")
+        except Exception as x:
+            ctx.disturbed = "the fetch of the slow item failed with %s: %s" % (type(x).__name__, x)
+            return
+        ctx.nontrivial = True
+        if sf.get("settle_before_close"):
+            sched.sleep(sf["slow"] + 1.0)
+        try:
+            px._pyroReconnect(tries=12)
+        except Exception as x:
+            ctx.disturbed = "reconnect failed: %s: %s" % (type(x).__name__, x)
+            return
+        it.close()                  # one-way close_stream over the new connection
+        ctx.probe("closed_by_client")
+        sched.sleep(sf["slow"] + 2.0 + sf["wait_more"])
+        sched.settle()
+        # somebody comes back for that stream: an error, never an item
+        try:
+            r = px._pyroInvoke("get_next_stream_item", [sid], {}, objectId=core.DAEMON_NAME)
+            ctx.violate("item-after-forgotten", "closed-during-slow-fetch", "the client closed stream %s (while/after the server produced "
+                        "item %d slowly); a later request for that stream was answered with %r" % (sid[:8], sf["k"], r))
+        except E.CommunicationError as x:
+            ctx.disturbed = "the probe fetch lost its connection: %s" % x
+        except StopIteration:
+            ctx.violate("answer-after-forgotten", "closed-during-slow-fetch", "the client closed stream %s; a later request for that "
+                        "stream was answered with StopIteration (the stream was still known)" % sid[:8])
+        except Exception as x:
+            if "terminated" in str(x):
+                ctx.probe("terminated_error")
+            else:
+                ctx.probe("terminated_other_error")
+        sched.settle()
+        if sid in daemon.streaming_responses:
+            ctx.violate("stream-leaked", "closed-during-slow-fetch", "stream %s was closed by its client and is still in the server's table "
+                        "%.0f s later" % (sid[:8], sf["slow"] + 2.0 + sf["wait_more"]))
+        if not srv.loop_alive():
+            ctx.violate("daemon-loop-died", "slow-item", "request loop ended: %r" % (srv.loop_death(),))
+        px._pyroRelease()
+        daemon.shutdown()
 
     def _drive(self, ctx, run, its):
         plan, sched = ctx.plan, ctx.sched
